@@ -16,7 +16,7 @@
 //   vT <h> <src>                          src.T() (rank 2)        vperm <h> <src> <p0> <p1> <p2>   src.permute (rank 3)
 //   vdiag <h> <src> <k>                   src.diag_vector(k)      vsoft <h> <src>   src.soft_link()   vlink <h> <src>  (shallow copy)
 //   nr                                    new_recording                                            -> ok
-//   <statement kind> <args>               see drv_arrayad_s1..s4.cpp                               -> S <status> | ... (below)
+//   <statement kind> <args>               see drv_arrayad_s1..s8.cpp                               -> S <status> | ... (below)
 //   jac : <indep handles> : <dep handles> clear lists, independent()/dependent() each, jacobian()  -> J m n : entries (row-major)
 //   ev                                    hook-H1 event log since the last `ev`                     -> E nOps/alloc nSt/alloc : events
 //   tape                                  whole tape                                               -> T nst nop | lhs:m*i,.. | ..
@@ -450,6 +450,9 @@ int main() {
           if (r == 0) r = exec_s3(w, c);
           if (r == 0) r = exec_s4(w, c);
           if (r == 0) r = exec_s5(w, c);
+          if (r == 0) r = exec_s6(w, c);
+          if (r == 0) r = exec_s7(w, c);
+          if (r == 0) r = exec_s8(w, c);
         } catch (const std::exception& e) { status = "EXC " + excname(e); r = 1; }
         if (r != 1 || !c.pre_done) { std::cout << "bad-op\n"; continue; }
         long t = c.newh >= 0 ? c.newh : c.objs[0];
